@@ -27,7 +27,7 @@ ASSUMPTIONS = [
 ]
 REQUIRED_COUNTERS = ['designer_state_corruptions', 'server_restarts', 'update_events', 'deliveries_ledgered', 'events_with_active', 'state_restorations',
                      'state_losses', 'rebuilt_policy_events', 'inram_events', 'kept_alive_policy_events',
-                     'racing_completions_between_reads', 'updates_with_concurrent_completion_checked']
+                     'racing_completions_between_reads', 'updates_with_concurrent_completion_checked', 'study_recreations']
 MIN_DISTINCT = {'quick': 150, 'thorough': 3000}
 ROUTES = ['svc-ps-ram', 'svc-ps-sqlmem', 'svc-dp-ram', 'inram-ps', 'svc-ps-sqlfile', 'svc-ps-ram', 'svc-keep-ram', 'svc-keep-sqlmem']
 
@@ -197,7 +197,16 @@ def gen_history(rng, route):
       steps.append({'k': 'stop', 'pick': rng.random()})
     elif r < 0.95:
       steps.append({'k': 'delete', 'pick': rng.random(), 'highest': rng.random() < 0.5})
-    elif r < 0.975:
+      if steps[-1]['highest'] and rng.random() < 0.45:
+        # several of the newest trials go (a sweep of late trials is withdrawn): the largest id
+        # falls below the number of trials the algorithm has already been given
+        for _ in range(rng.randint(1, 3)):
+          steps.append({'k': 'delete', 'pick': rng.random(), 'highest': True})
+    elif r < 0.965:
+      # the study is deleted and created again under the same name: a new study, nothing
+      # learnt about the old one's trials may be applied to it
+      steps.append({'k': 'recreate_study'})
+    elif r < 0.98:
       steps.append({'k': 'corrupt_state'})
     else:
       # only the designer's part of the persisted state is unreadable: the policy has
@@ -212,6 +221,8 @@ def gen_history(rng, route):
   if not (route.startswith('svc-ps')):
     # the racing step needs the real service and the policy rebuilt per request
     steps = [dict(s, k='complete') if s['k'] == 'suggest_race' else s for s in steps]
+  if route.endswith('sqlfile') or route == 'inram-ps':
+    steps = [s for s in steps if s['k'] != 'recreate_study']
   if route == 'inram-ps':
     steps = [s for s in steps if s['k'] in ('suggest', 'complete', 'add_completed')]
   if route.startswith('svc-dp'):
@@ -423,6 +434,12 @@ def run_service(ctx, index, route, steps):
         tid = ids[-1] if st['highest'] else ids[int(st['pick'] * len(ids)) % len(ids)]
         S.call_servicer(servicer, {'op': 'DeleteTrial', 'trial': f'{sname}/trials/{tid}'})
         ledger.deleted_ids.append(tid)
+    elif k == 'recreate_study':
+      ctx.count('study_recreations')
+      S.call_servicer(servicer, {'op': 'DeleteStudy', 'study': sname})
+      S.call_servicer(servicer, {'op': 'CreateStudy', 'owner': 'o', 'display': 's', 'algo': algo})
+      KEPT.clear()      # (the harness's own kept-alive host keys its policies by study incarnation)
+      ledger = Ledger(ctx, route, case, rebuilt_each_time=(kind == 'dp'))
     elif k == 'restart':
       ctx.count('server_restarts')
       try:
